@@ -139,7 +139,7 @@ def run_cfg(ctx, p, cfg):
         ro = anchors.routing(p)
         sn = ro["shared_new"]
         site = ro["add_site"]
-        nx = [c for c in sn.calls(NEXT) if sn.in_loop(c.block) and sn.dominates(c.block, site.block)]
+        nx = [c for c in sn.calls(NEXT) if sn.in_loop(c.block) and sn.dominates(c.block, site.block) and sn.can_reach(site.block, c.block)]
         if len(nx) != 1:
             raise ShapeUnrecognised("insertion loop iterator not found")
         it = nx[0].arg(0)
@@ -320,52 +320,91 @@ def run_cfg_after_r4(ctx, p, cfg):
         r.require(any(x[0] == "field" for x in walk(site.arg(2))) and any(x[0] == "call" and x[1] == anchors.LOAD for x in walk(site.arg(2))), "table-from-snapshot", fn=site.fn, detail="appender table argument %s" % show(site.arg(2), 6))
 
     with ctx.rule("R8", "index table agreement", cfg) as r:
+        # The nodes store positions; the snapshot stores the appenders.  Both come from one vector V: the name -> position map
+        # enumerates V front to back, the table is V's elements in V's order, and V is not touched in between.  Everything is
+        # read on the loop view, where `.enumerate().map(..).collect::<HashMap>()` and `for (i, a) in V.iter().enumerate() {
+        # map.insert(a.name(), i) }` (likewise the table's map/collect and an explicit push loop) are the same loops.
         ro = anchors.routing(p)
-        sn = ro["shared_new"]
-        # map: collect(map(enumerate(iter(VEC)), closure -> (name, i)))
-        maps = []
-        for c in sn.calls("core::iter::traits::iterator::Iterator::collect"):
-            e = strip(c.arg(0))
-            chain = []
-            while e[0] == "call" and e[2]:
-                chain.append(e[1])
-                e = strip(e[2][0])
-            if "core::iter::traits::iterator::Iterator::enumerate" in chain:
-                maps.append(c)
-        r.require(len(maps) == 1, "one-enumerated-map", fn=sn, detail="collect(enumerate(..)) sites: %d" % len(maps))
-        table = None
-        aggs = [a for a in p.aggregates("SharedLogger") if a[0] is sn] or [a for a in p.aggregates(ro["shared_new"].d.get("impl_self_adt") or "") if a[0] is sn]
-        if maps and aggs:
-            me = maps[0].arg(0)
-            srcv = None
-            for x in walk(me):
-                if x[0] == "call" and x[1] in ("core::slice::<impl [T]>::iter",):
-                    srcv = deep_strip(x[2][0])
-            bad = [x[1].rsplit("::", 1)[-1] for x in walk(me) if x[0] == "call" and x[1].rsplit("::", 1)[-1] in ("rev", "filter", "skip", "take", "step_by", "filter_map", "skip_while")]
-            r.require(srcv is not None and not bad, "map-enumerates-the-whole-vector", fn=sn, detail="enumerate over %s (adaptors %s)" % (show(srcv, 4) if srcv else None, bad))
-            clo = [x for x in walk(me) if x[0] == "closure"]
-            if clo:
-                ke = p.fn(clo[0][1]).local_expr(0)
-                okk = ke[0] == "tuple" and len(ke[1]) == 2 and any(x[0] == "call" and x[1] == "config::runtime::Appender::name" for x in walk(ke[1][0])) and deep_strip(ke[1][1]) == ("field", ("param", 2), "0")
-                r.require(okk, "map-entry-is-(name,index)", fn=sn, detail="map closure returns %s" % show(ke, 5))
-            e = sn._rvalue(aggs[0][3], frozenset(), 30, aggs[0][1])
-            tv = [v for n, v in e[3] if "Appender" in str(_field_ty(p, e[1], n))]
-            tv = tv[0] if tv else None
-            tsrc = None
-            if tv is not None:
-                for x in walk(tv):
-                    if x[0] == "call" and x[1] == "core::iter::traits::collect::IntoIterator::into_iter":
-                        tsrc = deep_strip(x[2][0])
-                bad2 = [x[1].rsplit("::", 1)[-1] for x in walk(tv) if x[0] == "call" and x[1].rsplit("::", 1)[-1] in ("rev", "filter", "skip", "take", "step_by", "filter_map", "sort", "sort_by_key")]
-                r.require(tsrc is not None and tsrc == srcv and not bad2, "table-from-the-same-vector-in-order", fn=sn, detail="table built from %s; map from %s; adaptors %s" % (show(tsrc, 4) if tsrc else None, show(srcv, 4) if srcv else None, bad2))
-            else:
+        sn = p.fn_loops(ro["shared_new"].path)
+        ITER_OK = ("enumerate", "iter", "into_iter")
+        DROP = ("rev", "filter", "skip", "take", "step_by", "filter_map", "skip_while", "take_while", "chain", "zip", "sort", "sort_by_key", "dedup", "retain")
+
+        def loop_source(call):
+            """(source vector expr, adaptor names, the next call) of the loop a block sits in"""
+            nx = [c for c in sn.calls(NEXT) if sn.in_loop(c.block) and sn.dominates(c.block, call.block) and sn.can_reach(call.block, c.block)]
+            if len(nx) != 1:
+                return None, [], None
+            it = nx[0].arg(0)
+            names = [x[1].rsplit("::", 1)[-1] for x in walk(it) if x[0] == "call"]
+            src = None
+            for x in walk(it):
+                if x[0] == "call" and x[1].rsplit("::", 1)[-1] in ("iter", "into_iter") and x[2]:
+                    src = deep_strip(x[2][0])
+            return src, names, nx[0]
+
+        def every_element(call, nx):
+            """no path from the iterator step back to itself (or out of the loop through exhaustion of a later step) skips `call`"""
+            sw_ = sn.term(nx.block).get("target")
+            if sw_ is None:
+                return False
+            some_ = None
+            if sn.term(sw_)["k"] == "switch":
+                some_ = SwitchInfo(sn, sw_).target_of("Some")
+            if some_ is None:
+                return False
+            return not q.skipping_paths(sn, some_, {call.block}, {nx.block})
+        ins = [c for c in sn.calls(HM_INSERT) if any(t_.startswith("&mut std::collections::hash::map::HashMap<&") for t_ in (c.t.get("arg_tys") or [])[:1]) or True]
+        ins = [c for c in ins if sn.in_loop(c.block)]
+        r.require(len(ins) == 1, "one-enumerated-map", fn=sn, detail="insertions into a name -> position map inside a loop: %d" % len(ins))
+        srcv = None
+        if len(ins) == 1:
+            c = ins[0]
+            srcv, names, nx = loop_source(c)
+            bad = [n for n in names if n in DROP]
+            r.require(srcv is not None and "enumerate" in names and not bad, "map-enumerates-the-whole-vector", fn=sn, site=c.at,
+                      detail="map filled in a loop over enumerate(%s) (adaptors %s)" % (show(srcv, 4) if srcv else None, bad))
+            k_, v_ = c.arg(1), c.arg(2)
+            item = [x for x in walk(v_) if x[0] == "as" and x[2] == "Some" and strip(x[1])[0] == "call" and strip(x[1])[1] == NEXT]
+            okk = any(x[0] == "call" and x[1] == "config::runtime::Appender::name" for x in walk(k_)) and bool(item) and deep_strip(v_) == ("field", ("field", item[0], "0"), "0") \
+                or (any(x[0] == "call" and x[1] == "config::runtime::Appender::name" for x in walk(k_)) and bool(item) and deep_strip(v_)[0] == "field" and deep_strip(v_)[2] == "0"
+                    and not any(x[0] in ("bin", "un") for x in walk(v_)))
+            r.require(okk, "map-entry-is-(name,index)", fn=sn, site=c.at, detail="inserts (%s, %s)" % (show(k_, 4), show(v_, 5)))
+            r.require(nx is not None and every_element(c, nx), "map-has-every-element", fn=sn, site=c.at, detail="no element of the vector is skipped when the map is filled")
+        # the table
+        aggs = [a for a in p.aggregates("SharedLogger") if a[0].path == sn.path] or [a for a in p.aggregates(ro["shared_new"].d.get("impl_self_adt") or "") if a[0].path == sn.path]
+        ag = [(b_, i_, st_) for b_, i_, st_ in sn.assigns() if st_["rv"]["k"] == "agg" and st_["rv"].get("adt") in ("SharedLogger", ro["shared_new"].d.get("impl_self_adt"))]
+        if not ag:
+            r.fail("table-field", fn=sn, detail="the snapshot aggregate was not found")
+        else:
+            b_, i_, st_ = ag[0]
+            e = sn._rvalue(st_["rv"], frozenset(), 30, b_)
+            tops = [(n, op) for n, op in zip(st_["rv"].get("field_names", []), st_["rv"]["fields"]) if "Appender" in str(_field_ty(p, e[1], n))]
+            if not tops:
                 r.fail("table-field", fn=sn, detail="appender table field not found in the snapshot aggregate")
-            # no mutation of the vector between the two uses
-            muts = [c.callee for c in sn.calls() if c.t.get("arg_tys") and c.t["arg_tys"][0].startswith("&mut alloc::vec::Vec<config::runtime::Appender") ]
-            r.require(not muts, "vector-not-mutated", fn=sn, detail="mutating calls on the appender vector: %s" % muts)
-            # indices stored in nodes come from that map
-            look = [x for x in p.closures_of(sn.path) if any(c.callee == "core::ops::index::Index::index" for c in x.calls())]
-            r.require(len(look) >= 2, "indices-come-from-the-map", fn=sn, detail="closures resolving names through the map: %d (root, loggers)" % len(look))
+            else:
+                tl = (tops[0][1].get("move") or tops[0][1].get("copy") or {}).get("l")
+                pushes = [c for c in sn.calls() if (c.callee or "").endswith("Vec::<T, A>::push") and sn.in_loop(c.block)
+                          and any(x[0] == "agg" and str(x[1]).endswith("Appender") for x in walk(c.arg(1)))]
+                okt = len(pushes) == 1
+                tsrc, tnames = None, []
+                if okt:
+                    tsrc, tnames, tnx = loop_source(pushes[0])
+                    r.require(tnx is not None and every_element(pushes[0], tnx), "table-has-every-element", fn=sn, site=pushes[0].at,
+                              detail="every element of the vector is pushed to the table (a filtered table no longer lines up with the positions in the map)")
+                    from l4sa.panics import _root_local
+                    recv = pushes[0].t["args"][0].get("move") or pushes[0].t["args"][0].get("copy")
+                    rdefs = [d_ for d_ in sn.defs(recv["l"])] if recv else []
+                    owner = rdefs[0][4]["place"]["l"] if len(rdefs) == 1 and rdefs[0][3] == "rv" and rdefs[0][4]["k"] == "ref" else None
+                    okt = owner is not None and tl is not None and _root_local(sn, tl) == _root_local(sn, owner)
+                bad2 = [n for n in tnames if n in DROP]
+                r.require(okt and tsrc is not None and srcv is not None and tsrc == srcv and not bad2, "table-from-the-same-vector-in-order", fn=sn,
+                          detail="table pushed in a loop over %s; map from %s; adaptors %s" % (show(tsrc, 4) if tsrc else None, show(srcv, 4) if srcv else None, bad2))
+        # no mutation of the vector between the two uses
+        muts = [c.callee for c in sn.calls() if c.t.get("arg_tys") and c.t["arg_tys"][0].startswith("&mut alloc::vec::Vec<config::runtime::Appender")]
+        r.require(not muts, "vector-not-mutated", fn=sn, detail="mutating calls on the appender vector: %s" % muts)
+        # indices stored in nodes come from that map: the root's and every logger's list are looked up in it
+        look = [c for c in sn.calls("core::ops::index::Index::index") if any("HashMap" in t_ for t_ in (c.t.get("arg_tys") or [])[:1])]
+        r.require(len(look) >= 2, "indices-come-from-the-map", fn=sn, detail="lookups in the map: %d (root, loggers)" % len(look))
 
     with ctx.rule("R9", "existing nodes are never replaced", cfg) as r:
         ro = anchors.routing(p)
